@@ -85,7 +85,20 @@ fn etc_plane_block(plane: u8, k: usize, r: &mut Mix64) -> u64 {
 pub fn payload_for(fmt: Fmt, w: usize, h: usize, fill: &Fill) -> Vec<u8> {
     let len = fmt.payload_len(w, h);
     match fill {
-        Fill::Random(s) => Mix64(*s).bytes(len),
+        Fill::Random(s) => {
+            let mut v = Mix64(*s).bytes(len);
+            if fmt == Fmt::Etc1A4 && s % 3 == 0 {
+                // every third random ETC1A4 texture: some blocks fully transparent / fully opaque
+                for (k, b) in v.chunks_mut(16).enumerate() {
+                    if k % 4 == 1 {
+                        b[..8].fill(0);
+                    } else if k % 4 == 3 {
+                        b[..8].fill(0xFF);
+                    }
+                }
+            }
+            v
+        }
         Fill::Const(b) => vec![*b; len],
         Fill::Counter(base) => {
             let bytes = fmt.bpp() / 8;
@@ -111,6 +124,12 @@ pub fn payload_for(fmt: Fmt, w: usize, h: usize, fill: &Fill) -> Vec<u8> {
                     for pos in 0..16u64 {
                         a |= ((pos + k as u64) & 0xF) << (pos * 4);
                     }
+                    // whole-block constants too: fully transparent and fully opaque blocks over arbitrary colour words
+                    if k % 5 == 3 {
+                        a = 0;
+                    } else if k % 7 == 5 {
+                        a = u64::MAX;
+                    }
                     v.extend_from_slice(&a.to_le_bytes());
                 }
                 v.extend_from_slice(&etc_plane_block(*p, k, &mut r).to_le_bytes());
@@ -126,7 +145,7 @@ impl Prop for C19 {
     fn rule() -> String {
         "Formats {RGBA8, RGBA5551, RGB565, RGBA4, LA8, L8, A8, ETC1, ETC1A4} x width, height in {8,16,32,64,128}^2 with a payload of exactly the required size, wrapped in a single-texture CTPK and read with ctpk::read (ETC1/ETC1A4 also through mila::decode). \
          Payloads: random; exhaustive counters (for the 16-bit formats all 65536 values = four 128x128 textures, for the 8-bit formats all 256); ETC1 planes enumerating every differential (base, delta) pair, every individual 4-bit pair, every table pair x flip at bases near both clamps with all selector values, \
-         one distinguishing selector per texel position, and every alpha nibble at every position. Oracle: per-pixel reference decoders written from the format definitions: pixel (x, y) comes from its Z-order position in its 8x8 tile (4x4 ETC block, 2x2 blocks per tile); ETC1 colours exactly per the Khronos rules for blocks whose differential sums stay in 0..=31 \
+         one distinguishing selector per texel position, every alpha nibble at every position, and fully transparent / fully opaque alpha planes over arbitrary colour words. Oracle: per-pixel reference decoders written from the format definitions: pixel (x, y) comes from its Z-order position in its 8x8 tile (4x4 ETC block, 2x2 blocks per tile); ETC1 colours exactly per the Khronos rules for blocks whose differential sums stay in 0..=31 \
          (others: no colour oracle, but no panic and identical output in both builds); every other channel within one quantisation step of the linear expansion of its source bits; alpha 255 where the format has none; A8 colour merely constant; output length 4*w*h, dimensions echoed. \
          GameCube: ColorFormat::RGB5A3.decode over all 65536 values; Tpl::extract_textures on single-image CI8 TPLs with RGB5A3 palettes for sizes 1..=64 x 1..=64 (every width x a few heights and vice versa in the enumerated tier), 8x4 blocks, cropped to the stated size. Both builds, per-case output digests compared between them. \
          Non-trivial: the payload is not constant. Distinct = distinct case value."
